@@ -742,6 +742,72 @@ fn relations(rep: &mut Report, rng: &mut Rng, store: &AnnotationStore, model: &M
         }
     }
 
+    // 7a. a TEXT constraint as the only constraint is a search: the occurrences of the text (left to right, not overlapping; case
+    // folded char by char for AS NOCASE) in every resource - for TEXT results those ranges, for ANNOTATION results the annotations
+    // that have a selection on exactly such a range
+    for (c, o) in cs.iter().zip(&singles) {
+        let (CS::Text(needle, nocase), Some(got)) = (c, o.set()) else { continue };
+        if !(rt == Type::TextSelection || rt == Type::Annotation) || o.rows().map(|r| r.len() >= MAXROWS).unwrap_or(true) {
+            continue;
+        }
+        let fold = |s: &str| -> Option<Vec<char>> {
+            let mut v = Vec::new();
+            for ch in s.chars() {
+                if *nocase {
+                    let mut l = ch.to_lowercase();
+                    let first = l.next()?;
+                    if l.next().is_some() {
+                        return None; // a character whose lower case is longer: offsets do not map one to one, not judged
+                    }
+                    v.push(first);
+                } else {
+                    v.push(ch);
+                }
+            }
+            Some(v)
+        };
+        let Some(nd) = fold(needle) else { continue };
+        if nd.is_empty() {
+            continue;
+        }
+        let mut occ: BTreeSet<(usize, usize, usize)> = BTreeSet::new();
+        let mut ok = true;
+        for r in store.resources() {
+            let Some(text) = fold(r.text()) else {
+                ok = false;
+                break;
+            };
+            let mut i = 0;
+            while i + nd.len() <= text.len() {
+                if text[i..i + nd.len()] == nd[..] {
+                    occ.insert((r.handle().as_usize(), i, i + nd.len()));
+                    i += nd.len();
+                } else {
+                    i += 1;
+                }
+            }
+        }
+        if !ok {
+            continue;
+        }
+        let expect: Result<BTreeSet<Row>, Panic> = guard(|| {
+            if rt == Type::TextSelection {
+                occ.iter().map(|(r, b, e)| vec![format!("text:{}:{}-{}", r, b, e)]).collect()
+            } else {
+                store.annotations().filter(|a| a.textselections().any(|t| occ.contains(&(t.resource().handle().as_usize(), t.begin(), t.end())))).map(|a| vec![format!("annotation:{}", a.handle().as_usize())]).collect()
+            }
+        });
+        if let Ok(expect) = expect {
+            rep.eval();
+            rep.distinct(&format!("primary-vs-search/{}/{}", rtname(rt), c.kind()));
+            rep.count(&format!("primary-vs-search/{}/{}/{}", rtname(rt), c.kind(), if expect.is_empty() { "empty" } else { "rows" }));
+            if expect != got {
+                let kind = if got.is_subset(&expect) { "query-misses" } else if expect.is_subset(&got) { "query-has-more" } else { "differs" };
+                rep.violation(format!("C08/primary-vs-search/{}/{}/{}", rtname(rt), c.kind(), kind), ctx(sd, &QS::new(rt, vec![c.clone()]), json!({"query_rows": got, "from_the_occurrences_of_the_text": expect})));
+            }
+        }
+    }
+
     // 7b. the same question through the iterator API
     for (c, o) in cs.iter().zip(&singles) {
         if let Some(got) = o.set() {
